@@ -94,7 +94,11 @@ check("C05", "Same monitor: whenever the daemon parks, every reported instance s
 check("C11", "Same monitor: every refresh query must be explained by an unused 80/85/90/95 % mark of a live record (once per mark, never after expiry, "
       "marks restart on a fresh copy); a needed record whose mark fell due since the last iteration must be asked for; the cache-flush one-second "
       "rule and TTL-0-means-one-second are part of Heard.tla (model-checked: FlushRule, GoodbyeWithdraws) and are exercised through C03/C05 clauses and "
-      "C11.ttl (no address is held beyond its TTL or more than a second after a cache-flush displaced it); families browse, resolve and browsew (policy W).",
+      "C11.ttl (no address is held beyond its TTL or more than a second after a cache-flush displaced it); families browse, resolve and browsew (policy W). "
+      "Component level: Cache.tla models DnsCache and the DnsRecord lifetime arithmetic operation by operation; MCCache proves that it refines Heard.tla "
+      "(a record never outlives, nor is cut short of, the lifetime the statements give it; goodbye, cache-flush, verify) with three negative controls; "
+      "26 880 TLC-enumerated operation sequences and random ones are replayed on the real cache and TraceCache.tla compares every result and the "
+      "complete content (TTL, creation, expiry, refresh mark of every record) after every operation.",
       Q_NOTE, Q_TECH, "DESIGN.md section 7 C11")
 check("C13", "Same monitor: per-channel protocol automaton (first event SearchStarted, ServiceFound before ServiceResolved, exactly the owed SearchStopped "
       "in the iteration of stop / timeout / shutdown and nothing after it, cache-only browse never queries), no query for a stopped type or host "
@@ -111,7 +115,9 @@ check("C19", "Same monitor: every question the daemon asks must be explained by 
 check("C20", "Same monitor over driver families 'flood' and 'browse': every get_metrics reply is compared with the ground truth: cached-ptr/srv/txt/addr <= "
       "records received and still alive, timers proportional to live records and searches (strict clause: known finding; weaker 'popped' clause "
       "enforced), nothing kept of names of which nothing ever arrived in a packet for this daemon (C20.unrequested), and zero records / <= 1 timer once "
-      "every TTL has passed and all searches have been stopped for five seconds.", Q_NOTE, Q_TECH, "DESIGN.md section 7 C20")
+      "every TTL has passed and all searches have been stopped for five seconds. Component level (Cache.tla / TraceCache.tla, as for C11): the keys "
+      "of the cache's five maps and the subtype table must be the model's after every operation, no map entry without records (KeysNeeded), no "
+      "subtype entry without its subtype PTR (SubsNeeded); both model-checked, with negative controls.", Q_NOTE, Q_TECH, "DESIGN.md section 7 C20")
 
 check("C12", "Both trace monitors derive from the API / packet history the set of pending time-driven work and its due times and require, at every park "
       "of the real daemon, that the wake-up it asks its poller for is not later than the earliest of them (C12.cover), and that it never runs 30 idle "
@@ -126,7 +132,9 @@ check("C08", "Three legs. (a) Compare.tla (class, type, RDATA, count) is model-c
       "probe step) run under virtual time; each daemon's trace is judged by TraceRespond, which reads the names in use off the wire and then requires "
       "every later probe, announcement, answer, additional and goodbye to use them (plus no-take after a conflict, back-off then three fresh probes, "
       "NameChange events); (c) the combined trace is judged by TraceConflict: all announced, exactly one holds the original names, no shared name.",
-      RESP_NOTE + " A mechanism-level model of the probing protocol (ProbeMech) is part of the growing specification.", RESP_TECH + "; TLC-enumerated cases replayed into the comparison code",
+      RESP_NOTE + " (d) ProbeMech.tla, a mechanism-level model of probing / tiebreak / back-off / rename / defence for 2-3 daemons on one link, is "
+      "model-checked (no shared name, three probes before an announcement, one winner, everybody announced - liveness; without the tiebreak it must "
+      "fail) and its 810 start-time vectors are replayed on real daemons (family probecases).", RESP_TECH + "; TLC-enumerated cases replayed into the comparison code",
       "DESIGN.md section 7 C08")
 
 check("C18", "Interfaces.tla states which addresses of the host's table a daemon uses (selections in call order, last match wins, evaluated over whatever "
